@@ -1,7 +1,21 @@
 PROPERTY = "G05"
 ENTRY = {
-        "text": "placeholder",
-        "design_ref": "DESIGN.md section 5 items 5 and 6",
-        "note": "placeholder",
+        "text": "RuntimeClients.tla/RuntimeClientsCore.tla (on top of C04's ClientsCore.tla: per address one datum per source, the reported "
+                "name/source = highest-priority source WHOIS < ARP < rDNS < DHCP < hosts file that knows the address, every report replaces only "
+                "its own source's data, an address no source knows is no runtime client, DHCP data synchronised on listing and learned on lookup, "
+                "WHOIS refused for addresses owned by IP/CIDR, persistent clients shadow runtime ones; CustomUpstreamConfig attributed with "
+                "C04's precedence, nil without effective upstream lines, always the owner's CURRENT upstreams/cache switch, the same object until "
+                "the client's upstream settings or the common settings change) is explored by TLC over all histories of four finite universes "
+                "(6 invariants, 4 action properties); every labelled edge TLC prints is walked through a real client.Storage with fake DHCP / ARP / "
+                "hosts sources (tours from the initial state), comparing the reply and, after every step, the abstraction of the runtime index, "
+                "RangeRuntime, Find and FindByName; seeded random histories over a larger universe (hosts goroutine, real ARP ticker) are recorded "
+                "and validated by TraceRuntimeClients.tla (subset construction over the spec's nondeterminism).",
+        "design_ref": "DESIGN.md section 5 items 5 and 6; notes/G05.md",
+        "note": "Trusted: TLC, conc()/abs() of zz_verif_g05_test.go, reflection on proxy.CustomUpstreamConfig (upstream addresses, cache present). "
+                "Exported Storage API only; unexported fields are read for the abstraction function. Nondeterministic where the documentation is "
+                "silent (empty ARP table, WHOIS for lease-owned addresses, lookup after the lease ended, update keeping the upstream settings, "
+                "ARP after a failed refresh). Closing of replaced configurations and ClearUpstreamCache are not observed. The quick tier replays "
+                "every edge of smaller universes. Two open findings with proposed fixes (lease-MAC clients never get their upstreams; "
+                "configurations rebuilt on every lookup after a change of the common settings).",
         "technique": "TLA+ state machine explored by TLC; edge-covering tour replay into real code + TLC trace validation",
     }
